@@ -9,9 +9,10 @@ impl Rng { fn next(&mut self) -> u64 { self.0 ^= self.0 << 13; self.0 ^= self.0 
   fn pick<'a>(&mut self, v: &'a [&'a str]) -> &'a str { v[(self.next() % v.len() as u64) as usize] } }
 
 fn gen_tree(r: &mut Rng, dir: &Path, depth: u64, dirs: &mut Vec<PathBuf>) {
-    let names = ["a", "ab", "test", "tests", "out", "sub", "keep", "x.d", "x.d2", ".git", "c"];
+    // every VCS metadata directory name occurs: at the origin it must never be entered, deeper it is an ordinary directory
+    let names = ["a", "ab", "test", "tests", "out", "sub", "keep", "x.d", "x.d2", ".git", "c", ".hg", ".svn", "_darcs", ".bzr", ".pijul", ".fossil-settings"];
     if depth == 0 { return; }
-    let n = r.below(4);
+    let n = r.below(4) + if depth == 3 { 1 } else { 0 };
     let mut used = std::collections::HashSet::new();
     for _ in 0..n {
         let nm = r.pick(&names);
@@ -65,12 +66,30 @@ async fn main() {
             std::fs::write(origin.join(".git/info/exclude"), lines.join("\n") + "\n").unwrap();
             igfiles.push((origin.join(".git/info/exclude"), lines));
         }
+        // the other origin-level VCS files
+        for (rel, dir) in [(".bzrignore", None), ("_darcs/prefs/boring", Some("_darcs/prefs")), (".fossil-settings/ignore-glob", Some(".fossil-settings"))] {
+            if r.below(8) == 0 && dir.map_or(true, |d| origin.join(d.split('/').next().unwrap()).is_dir()) {
+                if let Some(d) = dir { std::fs::create_dir_all(origin.join(d)).unwrap(); }
+                let lines = vec![r.pick(&pats)];
+                std::fs::write(origin.join(rel), lines.join("\n") + "\n").unwrap();
+                igfiles.push((origin.join(rel), lines));
+            }
+        }
+        // explicit ignore files (outside the tree)
+        let mut explicit: Vec<PathBuf> = vec![];
+        if r.below(6) == 0 {
+            let p = tmp.join("explicit.ignore");
+            let lines = vec![r.pick(&pats), r.pick(&pats)];
+            std::fs::write(&p, lines.join("\n") + "\n").unwrap();
+            let p = std::fs::canonicalize(&p).unwrap();
+            igfiles.push((p.clone(), lines)); explicit.push(p);
+        }
         let watches: Vec<PathBuf> = if r.below(3) == 0 && dirs.len() > 1 { vec![dirs[1 + r.below(dirs.len() as u64 - 1) as usize].clone()] } else { vec![] };
         let mut lst = vec![]; listing(&origin, &mut lst);
-        let (files, errs) = from_origin(IgnoreFilesFromOriginArgs::new(&origin, watches.clone(), vec![]).unwrap()).await;
+        let (files, errs) = from_origin(IgnoreFilesFromOriginArgs::new(&origin, watches.clone(), explicit.clone()).unwrap()).await;
         let enc_children: Vec<String> = lst.iter().map(|(d, ks)| format!("{}\x1e{}", d.display(), ks.iter().map(|k| k.display().to_string()).collect::<Vec<_>>().join("\x1f"))).collect();
         let enc_ig: Vec<String> = igfiles.iter().map(|(p, ls)| format!("{}\x1e{}", p.display(), ls.join("\x1f"))).collect();
-        writeln!(cases, "DISC\t{}\t{}\t{}\t{}\t", origin.display(), watches.iter().map(|w| w.display().to_string()).collect::<Vec<_>>().join("\x1f"), enc_children.join("\x1d"), enc_ig.join("\x1d")).unwrap();
+        writeln!(cases, "DISC\t{}\t{}\t{}\t{}\t{}", origin.display(), watches.iter().map(|w| w.display().to_string()).collect::<Vec<_>>().join("\x1f"), enc_children.join("\x1d"), enc_ig.join("\x1d"), explicit.iter().map(|w| w.display().to_string()).collect::<Vec<_>>().join("\x1f")).unwrap();
         let res: Vec<String> = files.iter().map(|f| format!("{}@{}", f.path.display(), f.applies_in.as_ref().map(|p| p.display().to_string()).unwrap_or("-".into()))).collect();
         writeln!(outs, "{}{}", res.join(";"), if errs.is_empty() { "".to_string() } else { format!(" ERRS={}", errs.len()) }).unwrap();
     }
